@@ -203,3 +203,52 @@ func (r *RefLexer) Lex(in []byte) ([]Tok, Info) {
 		}
 	}
 }
+
+// ---- exported view of the derivative automaton (for product exploration) ----
+
+// RE is an opaque state of the derivative automaton.
+type RE = *re
+
+func (r *RefLexer) ModeRules(mode int) []RE { return append([]RE(nil), r.rules[mode]...) }
+func (r *RefLexer) Deriv(x RE, c rune) RE    { return r.G.deriv(x, c) }
+func Dead(x RE) bool                         { return x.op == '0' }
+func NullableRE(x RE) bool                   { return nullable(x) }
+func KeyRE(x RE) string                      { return x.key }
+
+// Boundaries returns every code point at which some set of the mode's rules
+// starts, or the one after it ends.
+func (r *RefLexer) Boundaries(mode int) []rune {
+	seen := map[*re]bool{}
+	bs := map[rune]bool{0: true}
+	var walk func(x *re)
+	walk = func(x *re) {
+		if x == nil || seen[x] {
+			return
+		}
+		seen[x] = true
+		if x.op == 's' {
+			for _, iv := range x.set.R {
+				bs[iv.Lo] = true
+				if iv.Hi < MaxRune {
+					bs[iv.Hi+1] = true
+				}
+			}
+		}
+		walk(x.a)
+		walk(x.b)
+		for _, y := range x.alts {
+			walk(y)
+		}
+	}
+	for _, x := range r.rules[mode] {
+		walk(x)
+	}
+	out := make([]rune, 0, len(bs))
+	for b := range bs {
+		out = append(out, b)
+	}
+	return out
+}
+
+// ModeIndex maps a mode name to its index in Spec.Modes.
+func (r *RefLexer) ModeIndex(name string) int { return r.midx[name] }
